@@ -203,3 +203,41 @@ Theorem C10_required_is_the_guard_of_complete_spec :
   forall c obs, lists_required c obs = complete_spec c obs.
 Proof. exact lists_required_is_complete. Qed.
 Print Assumptions C10_required_is_the_guard_of_complete_spec.
+
+(* ==== the RELATIONAL property stated directly about the code: two (or three) calls of the functions
+   regenerated from the Python source on this run, related through the key-level views of the frames they
+   return (code_view); obtained by transferring the laws proved from the single-call specs (Laws*.v) along
+   `generated code refines api_join` *)
+From SSJ Require Import CodeLevelBase CodeLevelJoins CodeLevelJoins2 CodeLevelFilters CodeLevelMatcher CodeLevelTight CodeLevelRelBase CodeLevelRelCalls CodeLevelRel CodeLevelRel2 CodeLevelRel3 CodeLevelRel4 CodeLevelRel5 CodeLevelRel6.
+Theorem C10_code_njobs_JCD :
+  ltac:(let t := type of C10_code_njobs_jcd in exact t).
+Proof. exact C10_code_njobs_jcd. Qed.
+Print Assumptions C10_code_njobs_JCD.
+Theorem C10_code_njobs_OVC :
+  ltac:(let t := type of C10_code_njobs_overlap_coefficient_perm in exact t).
+Proof. exact C10_code_njobs_overlap_coefficient_perm. Qed.
+Print Assumptions C10_code_njobs_OVC.
+Theorem C10_code_njobs_OVERLAP :
+  ltac:(let t := type of C10_code_njobs_overlap_join_perm in exact t).
+Proof. exact C10_code_njobs_overlap_join_perm. Qed.
+Print Assumptions C10_code_njobs_OVERLAP.
+Theorem C10_code_njobs_ED :
+  ltac:(let t := type of C10_code_njobs_edit_distance_join in exact t).
+Proof. exact C10_code_njobs_edit_distance_join. Qed.
+Print Assumptions C10_code_njobs_ED.
+Theorem C10_code_njobs_size_filter :
+  ltac:(let t := type of C10_code_njobs_size_filter_tables in exact t).
+Proof. exact C10_code_njobs_size_filter_tables. Qed.
+Print Assumptions C10_code_njobs_size_filter.
+Theorem C10_code_njobs_overlap_filter :
+  ltac:(let t := type of C10_code_njobs_overlap_filter_tables in exact t).
+Proof. exact C10_code_njobs_overlap_filter_tables. Qed.
+Print Assumptions C10_code_njobs_overlap_filter.
+Theorem C10_code_njobs_matcher :
+  ltac:(let t := type of C10_code_njobs_apply_matcher in exact t).
+Proof. exact C10_code_njobs_apply_matcher. Qed.
+Print Assumptions C10_code_njobs_matcher.
+Theorem C10_code_njobs_candset :
+  ltac:(let t := type of C10_code_njobs_filter_candset in exact t).
+Proof. exact C10_code_njobs_filter_candset. Qed.
+Print Assumptions C10_code_njobs_candset.
